@@ -591,7 +591,7 @@ Section RecSpec.
     - eapply IH; eassumption.
   Qed.
 
-  Definition consec (x y : Z) : Prop := exists p, prog x = Some p /\ mi_succ p = None /\ y = x + mi_len p.
+  Definition consec (x y : Z) : Prop := exists p, prog x = Some p /\ mi_succ p = None /\ y = x + mi_len p /\ prog y <> None.
 
   (* instruction graphs as the translators build them; nothing leaves an instruction's exit block inside its own graph *)
   Record ig_ok (ig : cfg) : Prop := {
@@ -610,7 +610,8 @@ Section RecSpec.
     chain_ok consec pa ins.
   Proof.
     induction 1 as [a p s P K|a p P K|a p rest s P K R IH]; intros pa Hp; cbn [chain_ok]; try (split; [exact Hp | exact I]).
-    split; [exact Hp|]. destruct (run_head _ _ _ _ R) as (g0 & tl & ->). apply IH. exists p. repeat split; assumption.
+    split; [exact Hp|]. destruct (run_head _ _ _ _ R) as (g0 & tl & E). rewrite E in *. apply IH. exists p.
+    split; [exact P|]. split; [exact K|]. split; [reflexivity|]. destruct (run_graphs _ _ _ _ R _ _ (or_introl eq_refl)) as [_ X]. exact X.
   Qed.
 
   Lemma run_last a ins s : run_spec prog a ins s -> exists z p, last_addr ins = Some z /\ prog z = Some p /\ join_succ [] s = mlinks z p.
@@ -783,7 +784,7 @@ Proof.
   assert (Sound : forall e, In e (gs_edges g2) -> In e (lay_edges lay) \/
             exists tx ty c, In tx lay /\ In ty lay /\ mlink prog (t_addr tx) (t_addr ty) c /\ e = mkedge (t_exit tx) (t_entry ty) c).
   { intros e He. apply Se in He as [He|He].
-    - apply Ve in He as [He|He]; [left; exact He|]. right. destruct (Vl _ He) as (tx & ty & Ix & Iy & -> & (p & P & K & Ey)).
+    - apply Ve in He as [He|He]; [left; exact He|]. right. destruct (Vl _ He) as (tx & ty & Ix & Iy & -> & (p & P & K & Ey & _)).
       exists tx, ty, None. repeat (split; [assumption|]). split; [|reflexivity]. exists p. split; [exact P|]. unfold mlinks. rewrite K, Ey. left. reflexivity.
     - right. destruct (Ss _ He) as ([a r] & tl & ts & c & Ia & Il & Its & La & Ij & ->). cbn [snd] in La, Ij.
       exists tl, ts, c. repeat (split; [assumption|]). split; [|reflexivity].
